@@ -81,6 +81,13 @@ def rule_gr3(prog, G):
         for ru in g.rules:
             name = ru.alias or ru.origin
             cb = g.callbacks.get(name, ('missing',))
+            if not ru.helper() and cb[0] == 'function':
+                r.inst(lang=lang, production=repr(ru),
+                       builds='via function %s (sort typing not applied)' %
+                       cb[1].short(), nontrivial=False)
+                r.notes.append('%s: %s builds through %s' % (lang, ru,
+                                                            cb[1].short()))
+                continue
             if ru.helper() or cb[0] not in ('construct', 'construct-other'):
                 continue
             cname = cb[1].name
@@ -126,7 +133,18 @@ def rule_gr3(prog, G):
                     expected=sorted(allowed), found=sorted(bad)))
             else:
                 r.ok()
-            if sig is not None and sig.max_arity is not None and \
+            doc_n = c09_arity(cname)
+            if doc_n is not None and (unbounded or nmin != doc_n):
+                r.fail(Finding(
+                    PROP, 'R-GR-3', g.parser_cls.module.relpath + ':1',
+                    g.parser_cls.short(), 'doc-arity:%s:%s' % (lang, ru),
+                    'production  %s  gives %s%d operand(s) to %s.%s, which '
+                    'the documented syntax defines with exactly %d: the '
+                    'parser accepts text outside the documented grammar '
+                    '(e.g. "p %s q %s r")' % (
+                        ru, '>=' if unbounded else '', nmin, lang, cname,
+                        doc_n, cname, cname)))
+            elif sig is not None and sig.max_arity is not None and \
                     (unbounded or nmin > sig.max_arity or
                      nmin < sig.min_arity):
                 r.fail(Finding(
@@ -140,7 +158,8 @@ def rule_gr3(prog, G):
                 r.ok()
         # the start symbol yields formulas of the language only
         al = set(prog.alphabet(LANGS[lang]))
-        extra = roots[g.start] - al
+        extra = set(x for x in roots[g.start] - al
+                    if not x.startswith('<via '))
         r.inst(lang=lang, start=g.start, start_roots=sorted(roots[g.start]))
         if extra or not roots[g.start]:
             r.fail(Finding(
@@ -153,6 +172,13 @@ def rule_gr3(prog, G):
             r.ok()
     floor('R-GR-3', 'typed productions', len(r.instances), 40)
     return r
+
+
+def c09_arity(cname):
+    from .c08 import DOC_ARITY
+    if cname in ('Or', 'And'):
+        return None             # n-ary by the parsers' own documentation
+    return DOC_ARITY.get(cname)
 
 
 def rule_gr4(prog, G):
